@@ -383,4 +383,110 @@ theorem applyNormal_chunks {L R : List Line} (cs : List (Chunk Line)) (hok : All
     DiffApply.applyNormal (normal cs) L = some R :=
   applyNormalLoop_chunks cs 1 1 ⟨[], 1⟩ _ (At.init L R) hok hal hed (Nat.le_refl _)
 
+/-! ## the edits inside the chunks of `New` -/
+
+theorem startChunk_all {α : Type} (Q : Edit α → Prop) (done : List (Chunk α)) (cur : Chunk α)
+    (l r : Nat) (hd : ∀ d ∈ done, ∀ e ∈ d.edits, Q e) (hc : ∀ e ∈ cur.edits, Q e) :
+    (∀ d ∈ (startChunk done cur l r).1, ∀ e ∈ d.edits, Q e) ∧
+    (∀ e ∈ (startChunk done cur l r).2.edits, Q e) := by
+  unfold startChunk
+  split
+  · split
+    · refine ⟨?_, by intro e he; cases he⟩
+      intro d hd' e he
+      rcases List.mem_append.mp hd' with h | h
+      · exact hd d h e he
+      · rw [List.mem_singleton.mp h] at he; exact hc e he
+    · exact ⟨hd, hc⟩
+  · exact ⟨hd, hc⟩
+
+theorem newLoop_all {α : Type} (Q : Edit α → Prop) : ∀ (es : List (Edit α)) (done : List (Chunk α))
+    (cur : Chunk α) (l r : Nat), (∀ e ∈ es, Q e) → (∀ d ∈ done, ∀ e ∈ d.edits, Q e) →
+    (∀ e ∈ cur.edits, Q e) →
+    (∀ d ∈ (newLoop es done cur l r).1, ∀ e ∈ d.edits, Q e) ∧
+    (∀ e ∈ (newLoop es done cur l r).2.edits, Q e)
+  | [], done, cur, l, r, _, hd, hc => by simpa [newLoop] using ⟨hd, hc⟩
+  | e :: es, done, cur, l, r, hes, hd, hc => by
+    have hs := startChunk_all Q done cur l r hd hc
+    have hes' : ∀ e ∈ es, Q e := fun e' he' => hes e' (by simp [he'])
+    have hq := hes e (by simp)
+    have hpush : ∀ e' ∈ (startChunk done cur l r).2.edits ++ [e], Q e' := by
+      intro e' he'
+      rcases List.mem_append.mp he' with h | h
+      · exact hs.2 e' h
+      · rw [List.mem_singleton.mp h]; exact hq
+    rw [newLoop]
+    cases e.op <;> simp only
+    · exact newLoop_all Q es _ _ _ _ hes' hs.1 hpush
+    · exact newLoop_all Q es _ _ _ _ hes' hs.1 hs.2
+    · exact newLoop_all Q es _ _ _ _ hes' hs.1 hpush
+    · exact newLoop_all Q es _ _ _ _ hes' hs.1 hpush
+
+theorem newChunks_all {α : Type} (Q : Edit α → Prop) (es : List (Edit α)) (h : ∀ e ∈ es, Q e) :
+    ∀ c ∈ newChunks es, ∀ e ∈ c.edits, Q e := by
+  have r := newLoop_all Q es [] ⟨[], 1, 1, 1, 1⟩ 1 1 h (by intro d hd; cases hd) (by intro e he; cases he)
+  rw [newChunks_eq]
+  unfold Proofs.Mdiff.finish
+  split
+  · exact r.1
+  · intro c hc e he
+    rcases List.mem_append.mp hc with h' | h'
+    · exact r.1 c h' e he
+    · rw [List.mem_singleton.mp h'] at he; exact r.2 e he
+
+/-- a valid script has the unused field of every Drop and Copy empty -/
+theorem validFrom_unused {L R : List Line} : ∀ (es : List (Edit Line)) (i j : Nat),
+    EditScript.ValidFrom L R es i j → ∀ e ∈ es, (e.op = .drop → e.Y = []) ∧ (e.op = .copy → e.X = [])
+  | [], _, _, _, e, he => by cases he
+  | e :: es, i, j, h, e', he' => by
+    simp only [EditScript.ValidFrom] at h
+    rcases List.mem_cons.mp he' with rfl | hm
+    · split at h
+      · rename_i hop; exact ⟨fun _ => h.2.1, fun h' => (by rw [hop] at h'; cases h')⟩
+      · rename_i hop; exact ⟨fun h' => (by rw [hop] at h'; cases h'), fun h' => (by rw [hop] at h'; cases h')⟩
+      · rename_i hop; exact ⟨fun h' => (by rw [hop] at h'; cases h'), fun _ => h.1⟩
+      · rename_i hop; exact ⟨fun h' => (by rw [hop] at h'; cases h'), fun h' => (by rw [hop] at h'; cases h')⟩
+    · split at h
+      · exact validFrom_unused es _ _ h.2.2 e' hm
+      · exact validFrom_unused es _ _ h.2.2.2 e' hm
+      · exact validFrom_unused es _ _ h.2.2 e' hm
+      · exact validFrom_unused es _ _ h.2.2 e' hm
+
+/-- valid + canonical ⇒ every edit of the script is `EditOK` -/
+theorem editOK_of_valid_canonical {L R : List Line} (es : List (Edit Line))
+    (hv : EditScript.Valid es L R) (hc : EditScript.Canonical es) : ∀ e ∈ es, EditOK e := by
+  intro e he
+  have hu : (e.op = .drop → e.Y = []) ∧ (e.op = .copy → e.X = []) := by
+    rcases hv with ⟨rfl, _⟩ | ⟨_, hv⟩
+    · cases he
+    · exact validFrom_unused es 0 0 hv e he
+  have hn := hc.1 e he
+  unfold EditOK
+  unfold EditScript.NonEmpty at hn
+  split <;> rename_i hop <;> simp only [hop] at hn
+  · exact ⟨hn, hu.1 hop⟩
+  · exact ⟨hn, hu.2 hop⟩
+  · exact hn
+  · trivial
+
+/-! ## decidability (for the non-vacuity examples) -/
+
+instance decEditOK (e : Edit Line) : Decidable (EditOK e) :=
+  match e with
+  | ⟨.drop, X, Y⟩ => inferInstanceAs (Decidable (X ≠ [] ∧ Y = []))
+  | ⟨.copy, X, Y⟩ => inferInstanceAs (Decidable (Y ≠ [] ∧ X = []))
+  | ⟨.replace, X, Y⟩ => inferInstanceAs (Decidable (X ≠ [] ∧ Y ≠ []))
+  | ⟨.emit, _, _⟩ => inferInstanceAs (Decidable True)
+
+instance decGapEq {α : Type} [DecidableEq α] (L R : List α) (a b c d : Nat) :
+    Decidable (GapEq L R a b c d) :=
+  inferInstanceAs (Decidable (a ≤ c ∧ b ≤ d ∧ c - a = d - b ∧ span L a c = span R b d))
+
+instance decAligned {α : Type} [DecidableEq α] (L R : List α) :
+    ∀ (lp rp : Nat) (cs : List (Chunk α)), Decidable (Aligned L R lp rp cs)
+  | lp, rp, [] => inferInstanceAs (Decidable (L.drop (lp - 1) = R.drop (rp - 1)))
+  | lp, rp, c :: cs =>
+    have := decAligned L R c.lend c.rend cs
+    inferInstanceAs (Decidable (GapEq L R lp rp c.lstart c.rstart ∧ Aligned L R c.lend c.rend cs))
+
 end MdsVerif.Proofs.MdiffApply
